@@ -104,6 +104,41 @@ psf_copy_filename (SF_PRIVATE *psf, const char *path)
 	return 0 ;
 } /* psf_copy_filename */
 
+/*
+** A seek that fails leaves the file pointer where it was. Header writers and the
+** read/write mode switch seek and then write without looking at the result, so
+** the bytes would land on top of whatever is at the old position. Remember the
+** failure here and let psf_fwrite() refuse until the pointer is where it was
+** meant to be (as it is for a stream that cannot seek but is still at offset 0).
+*/
+static sf_count_t
+psf_seek_result (SF_PRIVATE *psf, sf_count_t result, sf_count_t offset, int whence)
+{
+	if (result < 0)
+	{	psf->seek_failed = SF_TRUE ;
+		psf->seek_failed_target = (whence == SEEK_SET) ? offset : -1 ;
+		}
+	else
+		psf->seek_failed = SF_FALSE ;
+
+	return result ;
+} /* psf_seek_result */
+
+static int
+psf_write_position_lost (SF_PRIVATE *psf)
+{
+	if (! psf->seek_failed)
+		return SF_FALSE ;
+
+	if (psf->seek_failed_target >= 0 && psf_ftell (psf) == psf->seek_failed_target)
+	{	psf->seek_failed = SF_FALSE ;
+		return SF_FALSE ;
+		} ;
+
+	psf->error = SFE_SEEK_FAILED ;
+	return SF_TRUE ;
+} /* psf_write_position_lost */
+
 #if (USE_WINDOWS_API == 0)
 
 /*------------------------------------------------------------------------------
@@ -306,7 +341,7 @@ psf_fseek (SF_PRIVATE *psf, sf_count_t offset, int whence)
 {	sf_count_t	absolute_position ;
 
 	if (psf->virtual_io)
-		return psf->vio.seek (offset, whence, psf->vio_user_data) ;
+		return psf_seek_result (psf, psf->vio.seek (offset, whence, psf->vio_user_data), offset, whence) ;
 
 	/* When decoding from pipes sometimes see seeks to the pipeoffset, which appears to mean do nothing. */
 	if (psf->is_pipe)
@@ -335,9 +370,11 @@ psf_fseek (SF_PRIVATE *psf, sf_count_t offset, int whence)
 	absolute_position = lseek (psf->file.filedes, offset, whence) ;
 
 	if (absolute_position < 0)
-		psf_log_syserr (psf, errno) ;
+	{	psf_log_syserr (psf, errno) ;
+		return psf_seek_result (psf, -1, offset - psf->fileoffset, whence) ;
+		} ;
 
-	return absolute_position - psf->fileoffset ;
+	return psf_seek_result (psf, absolute_position - psf->fileoffset, offset, whence) ;
 } /* psf_fseek */
 
 sf_count_t
@@ -390,6 +427,9 @@ psf_fwrite (const void *ptr, sf_count_t bytes, sf_count_t items, SF_PRIVATE *psf
 	ssize_t	count ;
 
 	if (bytes == 0 || items == 0)
+		return 0 ;
+
+	if (psf_write_position_lost (psf))
 		return 0 ;
 
 	if (psf->virtual_io)
@@ -943,7 +983,7 @@ psf_fseek (SF_PRIVATE *psf, sf_count_t offset, int whence)
 	DWORD dwError ;
 
 	if (psf->virtual_io)
-		return psf->vio.seek (offset, whence, psf->vio_user_data) ;
+		return psf_seek_result (psf, psf->vio.seek (offset, whence, psf->vio_user_data), offset, whence) ;
 
 	switch (whence)
 	{	case SEEK_SET :
@@ -971,12 +1011,12 @@ psf_fseek (SF_PRIVATE *psf, sf_count_t offset, int whence)
 
 	if (dwError != NO_ERROR)
 	{	psf_log_syserr (psf, dwError) ;
-		return -1 ;
+		return psf_seek_result (psf, -1, offset - psf->fileoffset, whence) ;
 		} ;
 
 	new_position = liNewFilePointer.QuadPart - psf->fileoffset ;
 
-	return new_position ;
+	return psf_seek_result (psf, new_position, offset, whence) ;
 } /* psf_fseek */
 
 /* USE_WINDOWS_API */ sf_count_t
@@ -1026,6 +1066,9 @@ psf_fwrite (const void *ptr, sf_count_t bytes, sf_count_t items, SF_PRIVATE *psf
 {	sf_count_t total = 0 ;
 	ssize_t	count ;
 	DWORD dwNumberOfBytesWritten ;
+
+	if (psf_write_position_lost (psf))
+		return 0 ;
 
 	if (psf->virtual_io)
 		return psf->vio.write (ptr, bytes * items, psf->vio_user_data) / bytes ;
